@@ -182,6 +182,7 @@ type TrackPool struct {
 	// not poisoned; double releases are still detected.
 	Reuse bool
 	free  []*tchannel.Frame
+	hb    uint64 // race builds: release -> get edge, as a sync.Pool gives
 }
 
 func newTrackPool(w *World, node string) *TrackPool {
@@ -190,6 +191,7 @@ func newTrackPool(w *World, node string) *TrackPool {
 
 func (p *TrackPool) Get() *tchannel.Frame {
 	if p.Reuse && len(p.free) > 0 {
+		simrt.HBAcquire(&p.hb)
 		f := p.free[len(p.free)-1]
 		p.free = p.free[:len(p.free)-1]
 		p.frames[f].state = 1
@@ -220,6 +222,7 @@ func (p *TrackPool) Release(f *tchannel.Frame) {
 	r.relPCs = callers()
 	p.Releases++
 	if p.Reuse {
+		simrt.HBRelease(&p.hb)
 		p.free = append(p.free, f)
 		return
 	}
